@@ -37,6 +37,9 @@ type G struct {
 	// third module c that declares identities with the names of b's; the submodule derives one
 	// more identity ("extra") from c's namesake of b's first identity through that prefix
 	SubSwap bool `json:"submodule_swaps_prefix,omitempty"`
+	// SubOwn: the submodule says belongs-to a { prefix self; } and imports b under the very prefix
+	// module a declares for itself: there that prefix means b, and a's identities are self:...
+	SubOwn bool `json:"submodule_binds_owner_prefix,omitempty"`
 }
 
 // firstInB returns the name of the first identity placed in module b ("" if none).
@@ -73,6 +76,10 @@ func (g G) files() []dump.File {
 			}
 			oi, oj := owner(g.Place[i]), owner(g.Place[j])
 			switch {
+			case g.SubOwn && g.Place[i] == 2 && oi == oj && g.OwnPfx:
+				fmt.Fprintf(sb, " base self:%s;", g.Names[j])
+			case g.SubOwn && g.Place[i] == 2 && oi != oj:
+				fmt.Fprintf(sb, " base %s:%s;", own[0], g.Names[j])
 			case oi == oj && g.OwnPfx:
 				fmt.Fprintf(sb, " base %s:%s;", own[oi], g.Names[j])
 			case oi == oj:
@@ -92,6 +99,9 @@ func (g G) files() []dump.File {
 		base := g.Names[i]
 		if g.OwnPfx {
 			base = own[owner(g.Place[i])] + ":" + base
+			if g.SubOwn && g.Place[i] == 2 {
+				base = "self:" + g.Names[i]
+			}
 		}
 		fmt.Fprintf(sb, " typedef td%d { type identityref { base %s; } } typedef te%d { type td%d; } leaf tref%d { type te%d; }", i, base, i, i, i, i)
 	}
@@ -117,6 +127,13 @@ func (g G) files() []dump.File {
 			{Name: "b.yang", Text: fmt.Sprintf(`module b { namespace "urn:b"; prefix %s; import a { prefix %s; }%s }`, own[1], imp[1], body[1])},
 			{Name: "as.yang", Text: fmt.Sprintf(`submodule as { belongs-to a { prefix %s; } import b { prefix z; } import c { prefix %s; }%s }`, own[0], imp[0], body[2])},
 			{Name: "c.yang", Text: fmt.Sprintf(`module c { namespace "urn:c"; prefix c;%s }`, cb.String())},
+		}
+	}
+	if g.SubOwn {
+		return []dump.File{
+			{Name: "a.yang", Text: fmt.Sprintf(`module a { namespace "urn:a"; prefix %s; import b { prefix %s; } include as;%s }`, own[0], imp[0], body[0])},
+			{Name: "b.yang", Text: fmt.Sprintf(`module b { namespace "urn:b"; prefix %s; import a { prefix %s; }%s }`, own[1], imp[1], body[1])},
+			{Name: "as.yang", Text: fmt.Sprintf(`submodule as { belongs-to a { prefix self; } import b { prefix %s; }%s }`, own[0], body[2])},
 		}
 	}
 	return []dump.File{
@@ -408,6 +425,21 @@ func enum(tier string, f func(G)) {
 							g := G{N: n, Place: append([]int{}, pl...), Names: append([]string{}, nm[:n]...), Edge: edge, SamePfx: v&1 != 0, OwnPfx: v&2 != 0, Undef: -1}
 							f(g)
 							// an identity in the submodule with a base in b: also with a file-local prefix
+							// ... and with the prefix its owner declares for itself (plain and own-prefixed bases)
+							for i := 0; i < n && (v == 0 || v == 2); i++ {
+								usesB := false
+								for j := 0; j < n; j++ {
+									if edge[i][j] && pl[i] == 2 && pl[j] == 1 {
+										usesB = true
+									}
+								}
+								if usesB {
+									go_ := g
+									go_.SubOwn = true
+									f(go_)
+									break
+								}
+							}
 							for i := 0; i < n && v == 0; i++ {
 								usesB := false
 								for j := 0; j < n; j++ {
